@@ -13,34 +13,44 @@ Inductive revent :=
 
 Definition hdr_err (sub : N) (d : bytes) : notif := mkNotif c_NOTIF_CODE_MESSAGE_HEADER_ERR sub d.
 
-(* one pass of the read loop over the bytes available so far.
-   Result: events, the unconsumed suffix, and whether the reader has stopped (after an error). *)
+(* one iteration of the read loop over the bytes available so far *)
+Inductive rone :=
+| RWait                         (* io.ReadFull is still waiting for header or body bytes *)
+| RFault (e : revent)           (* an error is reported and the reader returns *)
+| RGood (m : msg) (rest : bytes).
+
+Definition read_one (s : bytes) : rone :=
+  if blen s <? c_headerLength then RWait else
+  let hdr := take c_headerLength s in
+  if negb (beqb (take 16 hdr) marker) then
+    RFault (RErrNotif (hdr_err c_NOTIF_SUBCODE_CONN_NOT_SYNCHRONIZED []))
+  else
+    match drop 16 hdr with
+    | l1 :: l0 :: t :: _ =>
+        let len := get16 l1 l0 in
+        if (len <? c_headerLength) || (c_maxMessageLength <? len) then
+          RFault (RErrNotif (hdr_err c_NOTIF_SUBCODE_BAD_MESSAGE_LEN []))
+        else if blen s <? len then RWait
+        else
+          let body := take (len - c_headerLength) (drop c_headerLength s) in
+          match message_from_bytes body t with
+          | Ok m => RGood m (drop len s)
+          | Err (MEnotif n) => RFault (RErrNotif n)
+          | _ => RFault RErrIO     (* a NOTIFICATION shorter than 2 bytes: a plain error *)
+          end
+    | _ => RWait   (* unreachable: the header has 19 bytes *)
+    end.
+
+(* the loop. Result: events, the unconsumed suffix, and whether the reader has stopped *)
 Fixpoint read_loop (fuel : nat) (s : bytes) : list revent * bytes * bool :=
   match fuel with
   | O => ([], s, false)
   | S f =>
-      if blen s <? c_headerLength then ([], s, false) else      (* io.ReadFull(header) still waiting *)
-      let hdr := take c_headerLength s in
-      if negb (beqb (take 16 hdr) marker) then
-        ([RErrNotif (hdr_err c_NOTIF_SUBCODE_CONN_NOT_SYNCHRONIZED [])], s, true)
-      else
-        match drop 16 hdr with
-        | l1 :: l0 :: t :: _ =>
-            let len := get16 l1 l0 in
-            if (len <? c_headerLength) || (c_maxMessageLength <? len) then
-              ([RErrNotif (hdr_err c_NOTIF_SUBCODE_BAD_MESSAGE_LEN [])], s, true)
-            else if blen s <? len then ([], s, false)            (* io.ReadFull(body) still waiting *)
-            else
-              let body := take (len - c_headerLength) (drop c_headerLength s) in
-              let rest := drop len s in
-              match message_from_bytes body t with
-              | Ok m => let '(evs, r, stopped) := read_loop f rest in (RMsg m :: evs, r, stopped)
-              | Err (MEnotif n) => ([RErrNotif n], rest, true)
-              | Err MEother => ([RErrIO], rest, true)
-              | _ => ([RErrIO], rest, true)   (* unreachable: message_from_bytes is total *)
-              end
-        | _ => ([], s, false)   (* unreachable: the header has 19 bytes *)
-        end
+      match read_one s with
+      | RWait => ([], s, false)
+      | RFault e => ([e], s, true)
+      | RGood m rest => let '(evs, r, stopped) := read_loop f rest in (RMsg m :: evs, r, stopped)
+      end
   end.
 
 (* chunk-fed reader state: buffered bytes and whether it has stopped *)
